@@ -1,4 +1,5 @@
 import SlugModel.FS
+import SlugModel.Generated.Slug
 /-!
 # Unpack — model of `Packer.Unpack`, `unpackinfo.NewUnpackInfo`, `validSymlink`, `RestoreInfo`
 
@@ -41,6 +42,18 @@ def Entry.isSymlink (e : Entry) : Bool := e.typ = tSymlink
 def Entry.isDir (e : Entry) : Bool := e.typ = tDir
 def Entry.isRegular (e : Entry) : Bool := e.typ = tReg || e.typ = tRegA
 def Entry.isTypeX (e : Entry) : Bool := e.typ = tXGlobal || e.typ = tXHeader
+
+/-! Facts extracted from /repo on every run (Generated/Slug.lean) that the definitions here and in
+`unpackEntry` rely on: which tar type flags each predicate accepts, and the literal permissions
+of the `os.MkdirAll` / `os.Chmod` calls in `Packer.Unpack`.  A source change that alters one of
+them stops this file from compiling. -/
+example : Generated.symlinkFlags = ["TypeSymlink"] := rfl
+example : Generated.directoryFlags = ["TypeDir"] := rfl
+example : Generated.regularFlags = ["TypeReg", "TypeRegA"] := rfl
+example : Generated.typeXFlags = ["TypeXGlobalHeader", "TypeXHeader"] := rfl
+example : Generated.unpackMkdirAllModes = [0o755, 0o755] := rfl
+example : Generated.unpackChmodModes = [0o600] := rfl
+example : Generated.slugExtracted = true := rfl
 
 /-- `isWithin(root, p)` of unpackinfo.go and the identical test in `validSymlink` -/
 def isWithin (root p : Str) : Bool :=
